@@ -88,6 +88,11 @@ def step (st : St) (toks : List String) : St × String :=
   | ["reopen"] =>
     let st := { st with o := match st.o with | .single p => .single p.reopen | .sharded s => .sharded s.reopen }
     (st, dump st)
+  | ["destroy"] =>   -- Close, DestroyClosed, a new persister at the same path: an empty map of the same configuration
+    let st := { st with o := match st.o with
+      | .single p => .single (P.init p.maxBatch [])
+      | .sharded s => .sharded (Sharded.init s.n ((s.shards.head?.map (·.maxBatch)).getD 1)) }
+    (st, dump st)
   | ["range"] =>
     (st, match st.o with | .single p => showStore p.range | .sharded s => showStore s.range)
   | _ => (st, "bad-op")
